@@ -320,6 +320,15 @@ func init() {
 				case y.Equals(x) != eq:
 					res.Oracle = "source-equals-sym: Source.Equals is not symmetric"
 				}
+				// the same two values reached through an earlier life under another name (a Source
+				// is a plain exported struct: decoded into, copied over and renamed by its holders)
+				x2, y2 := &girc.Source{Name: c[5] + "[Z", Ident: c[6], Host: c[7]}, &girc.Source{Name: c[1] + "{q", Ident: c[2], Host: c[3]}
+				_, _, _ = x2.ID(), y2.ID(), x2.Equals(y2)
+				x2.Name, x2.Ident, x2.Host = c[1], c[2], c[3]
+				y2.Name, y2.Ident, y2.Host = c[5], c[6], c[7]
+				if res.Oracle == "" && (x2.ID() != x.ID() || y2.ID() != y.ID() || x2.Equals(y2) != eq || x2.Equals(y) != eq || x.Equals(y2) != eq) {
+					res.Oracle = "source-history: Source.ID/Equals of a value depend on names it carried earlier, not on its present name"
+				}
 			}
 			return res
 		},
